@@ -154,4 +154,15 @@ TEXTS = {
         'note': ('Plan-generation locality is validated (correspondence P + oracle), not proved. Shared buffers: C15. '
                  'Axioms: none.'),
     },
+    'C14': {
+        'level': ('Theorem (all histories of add/load/get/need_calibration on two recipe managers, all models, matchers, '
+                  'statistics): equal flattened rule lists give equal results of the WHOLE modelled pipeline (plan with '
+                  'buffer-sharing check, instructions, transformed graph) - same model or same exception; queries leave the '
+                  'manager unchanged; a witness shows plan generation writes its working store (why the code must copy the '
+                  'caller\'s dict). Tie: correspondence P compares the caller\'s statistics dict before/after and the model\'s '
+                  'private store; I/T/E the graph; the C14 oracle deep-compares every caller-owned object around every API call '
+                  'and compares output hashes across histories, Quantizer objects, fresh processes and hash seeds.'),
+        'note': ('Hidden state / nondeterminism of the implementation can only be observed, not proved absent. '
+                 'Axioms: none.'),
+    },
 }
